@@ -1,0 +1,46 @@
+//go:build verif
+
+package sqlx
+
+import (
+	"context"
+	"database/sql"
+	"encoding/json"
+	"errors"
+	"testing"
+
+	"github.com/gotid/god/internal/verifdrv"
+)
+
+// TestVerifDriverC01: {"arg": e} -> commonConn.acceptable(err) with e: 0 nil, 1 sql.ErrNoRows,
+// 2 sql.ErrTxDone, 3 context.Canceled, 5 another error; arg+10: same with a user accept
+// predicate that accepts nothing.
+func TestVerifDriverC01(t *testing.T) {
+	other := errors.New("verif other")
+	verifdrv.Run(t, func(raw json.RawMessage) any {
+		var c struct {
+			Arg int64 `json:"arg"`
+		}
+		if err := json.Unmarshal(raw, &c); err != nil {
+			return map[string]any{"error": err.Error()}
+		}
+		db := &commonConn{}
+		if c.Arg >= 10 {
+			db.accept = func(error) bool { return false }
+		}
+		var err error
+		switch c.Arg % 10 {
+		case 0:
+			err = nil
+		case 1:
+			err = sql.ErrNoRows
+		case 2:
+			err = sql.ErrTxDone
+		case 3:
+			err = context.Canceled
+		default:
+			err = other
+		}
+		return map[string]any{"ok": db.acceptable(err)}
+	})
+}
